@@ -42,6 +42,8 @@ def configs(quick):
     c = [
         dict(name="screening_timedep_adaptive", dev="ring", lam=0.4, screening=True, timedep=True, adaptive=True, T=0.15),
         dict(name="plain_biased", dev="bar", current=3.0, adaptive=False, T=0.1, smooth=2),
+        # four terminals with generic currents: the order in which terminal currents are summed must be fixed
+        dict(name="four_terminals", dev="cross4", currents4=[5.1, -2.3, -3.7, 0.9], adaptive=True, T=0.12),
     ]
     if not quick:
         c += [dict(name="timedep_current_adaptive", dev="bar_hole", timedep_current=True, adaptive=True, T=0.2),
